@@ -387,6 +387,11 @@ Definition stError := 2.
 Definition resetConnection (t : tcp) : tcp :=
   t <| out := out t ++ [mkF (sndUna (SN t)) (rcvNxt (RC t)) (Z.lor fAck fRst) 0 []] |> <| estate := stError |>.
 
+(* the main loop's error path for ErrConnectionReset (an acceptable RST arrived): since the repair
+   "an established connection answers an acceptable RST with a RST", resetConnectionLocked sends
+   nothing in that case; the endpoint just enters the error state *)
+Definition abortOnReset (t : tcp) : tcp := t <| estate := stError |>.
+
 (* the exit test of protocolMainLoop, evaluated after every function the loop runs *)
 Definition loopExit (t : tcp) : tcp :=
   if rclosed (RC t) && sclosed (SN t) && (sndUna (SN t) =? sndNxtList (SN t))
@@ -396,7 +401,7 @@ Definition loopExit (t : tcp) : tcp :=
 Definition handleSegment (t : tcp) (sg : seg) (newRto : Z) (idle : bool) : tcp :=
   if negb (estate t =? stConnected) then t else
   if has (s_flags sg) fRst then
-    if acceptable (RC t) (s_seq sg) 0 then resetConnection t
+    if acceptable (RC t) (s_seq sg) 0 then abortOnReset t
     else
       let t1 := if negb (rcvNxt (RC t) =? maxSentAck (SN t)) then sendAck t else t in loopExit t1
   else
